@@ -24,6 +24,8 @@ pub(crate) struct IncomingStream<const S: usize> {
     multihasher: Arc<MultihasherTable<S>>,
     stream: FramedRead<libp2p_swarm::Stream, Codec>,
     processing: Fuse<BoxFuture<'static, Option<IncomingMessage<S>>>>,
+    #[cfg(beetswap_verif)]
+    vid: u64,
 }
 
 #[derive(Debug, Default)]
@@ -50,6 +52,8 @@ impl<const S: usize> IncomingStream<S> {
             multihasher,
             stream: FramedRead::new(stream, Codec),
             processing: Fuse::terminated(),
+            #[cfg(beetswap_verif)]
+            vid: crate::verif::probe::new_stream(),
         }
     }
 }
@@ -71,7 +75,7 @@ impl<const S: usize> futures_core::stream::Stream for IncomingStream<S> {
             // If processing future is activated then poll it and return
             // its result.
             if !self.processing.is_terminated() {
-                match self.processing.poll_unpin(cx) {
+                match vprobe!(format!("ip:{}", self.vid), self.processing.poll_unpin(cx)) {
                     Poll::Ready(Some(msg)) => {
                         // There is no need to forward an empty message.
                         if msg.client.is_some() || msg.server.is_some() {
@@ -84,7 +88,7 @@ impl<const S: usize> futures_core::stream::Stream for IncomingStream<S> {
             }
 
             // Receive a decoded `Message` from underlying stream.
-            let msg = match self.stream.poll_next_unpin(cx) {
+            let msg = match vprobe!(format!("ir:{}", self.vid), self.stream.poll_next_unpin(cx)) {
                 Poll::Ready(Some(Ok(msg))) => msg,
                 Poll::Ready(Some(Err(e))) => {
                     debug!("Message decoding failed: {e}");
